@@ -237,6 +237,9 @@ func runCheck(repo, verif, prop, tier string, timeout, par int, keep bool) int {
 	if prop == "C05" {
 		results = append(results, w.structuralC05())
 	}
+	if prop == "C12" {
+		results = append(results, w.structuralC12())
+	}
 	if prop == "C19" {
 		results = append(results, w.structuralC19())
 	}
